@@ -254,6 +254,14 @@ def families(tier):
                     [put(1, 1, 'int'), put(2, 1, 'int')],
                     alias={1: U(1)}),
     ]
+    # sequential: after a write over several consumers (new, emptied, both)
+    # a following write with consumer_generation null is accepted exactly
+    # for the consumers that hold nothing
+    from checks import asserts
+    fams += [corpus.make_family(sh, [asserts.recreatable], prefix='seq/')
+             for sh in corpus.shapes(tier)
+             if sh.name in ('alloc-post-new+new-empty', 'alloc-post-clear+new',
+                            'alloc-post-2c', 'reshape-move')]
     if tier == 'thorough':
         fams += [
             make_family('new/put-null+put-null/consumer-uuid=provider-uuid',
